@@ -21,8 +21,9 @@ class L2:
         self.grp.install_recoders(self.st)
         self.heap = GM.convert_globals(self.ex, base.ex0.base_heap)
         self.ex.base_heap = self.heap
-        for f in ("Point).VarTimeDoubleScalarBaseMult", "Point).VarTimeMultiScalarMult"):
-            self.ex.merge_funcs.add(self.prog.find(f))
+        # symbolic branches (on recoded digits) are merged at their post-dominator wherever they occur: the variable-time
+        # loops need not live in the exported functions themselves
+        self.ex.merge_all = True
 
     def path(self):
         p = X.Path()
